@@ -25,6 +25,7 @@ type c12LocalScenario struct {
 	est      [2]bool
 	eor      [2]bool
 	released [2]bool
+	may      [2]bool // every GR peer has sent End-of-RIB, but the daemon only notices when a peer that is still withheld sends one: release allowed, not yet required
 	deferral [2]time.Duration
 }
 
@@ -87,6 +88,7 @@ func (sc *c12LocalScenario) allEnd() bool {
 func (sc *c12LocalScenario) releaseAll() {
 	for i := range sc.released {
 		sc.released[i] = true
+		sc.may[i] = false
 		sc.deferral[i] = 0
 	}
 }
@@ -99,6 +101,7 @@ func (sc *c12LocalScenario) elapse(d time.Duration) {
 				sc.deferral[i] = 0
 				if sc.est[i] {
 					sc.released[i] = true
+					sc.may[i] = false
 				}
 			}
 		}
@@ -136,9 +139,15 @@ func (sc *c12LocalScenario) Apply(w *simWorld, e simEvent) {
 	case "eor":
 		w.bots[e.Bot].sendMsg(bgp.NewBGPUpdateMessage(nil, nil, nil))
 		sc.eor[e.Bot] = true
-		if !sc.released[0] || !sc.released[1] {
-			if sc.allEnd() {
+		if (!sc.released[0] || !sc.released[1]) && sc.allEnd() {
+			if !sc.released[e.Bot] {
 				sc.releaseAll()
+			} else {
+				// the End-of-RIB came from a peer that was already released by its deferral
+				// timer: the others may be released now and must be at their own deferral expiry
+				for i := range sc.may {
+					sc.may[i] = !sc.released[i]
+				}
 			}
 		}
 	case "ann":
@@ -175,7 +184,13 @@ func (sc *c12LocalScenario) Check(w *simWorld, last *simEvent) {
 				}
 			}
 		}
-		if !sc.released[i] {
+		if !sc.released[i] && sc.may[i] {
+			if len(b.view) == 0 && eors == 0 {
+				w.stat("may-release-still-withheld")
+				continue
+			}
+			w.stat("may-release-released")
+		} else if !sc.released[i] {
 			w.stat("withheld-checked")
 			if len(b.view) != 0 || eors != 0 {
 				w.violate("C12:local-restart:advertised-before-release:"+ev, "after %s: %s has been sent %d routes and %d End-of-RIB although not every GR peer has sent End-of-RIB and its deferral timer (%v left) has not fired; model est=%v eor=%v", ev, b.spec.Name, len(b.view), eors, sc.deferral[i], sc.est, sc.eor)
@@ -201,7 +216,7 @@ func (sc *c12LocalScenario) Key(w *simWorld) string {
 			lr += fmt.Sprint(p.fsm.pConf.ReadOnly().GracefulRestart.State.LocalRestarting)
 		}
 	}
-	return fmt.Sprintf("est=%v eor=%v rel=%v def=%v lr=%s|%s", sc.est, sc.eor, sc.released, sc.deferral, lr, w.stateKey())
+	return fmt.Sprintf("est=%v eor=%v rel=%v may=%v def=%v lr=%s|%s", sc.est, sc.eor, sc.released, sc.may, sc.deferral, lr, w.stateKey())
 }
 
 func TestVerif_C12_Local(t *testing.T) {
